@@ -212,6 +212,7 @@ def obligations(ctx: Ctx):
         Ob(f"{P}.P2.validate", "F", "octave_validate with fix off: the emitted document is the parsed document, never mutated in between", ["octave_mcp.mcp.validate:ValidateTool.execute"], ob_fix_off_readonly("octave_mcp.mcp.validate", "ValidateTool.execute", ("fix",))),
         Ob(f"{P}.P3.write", "F", "octave_write with lenient off: schema validation does not alter the document that is emitted", ["octave_mcp.mcp.write:WriteTool.execute"], ob_fix_off_readonly("octave_mcp.mcp.write", "WriteTool.execute", WRITE_FIX_GUARDS, region_guard=WRITE_REGION_GUARD)),
     ]
+    obs.append(Ob(f"{P}.F3.tool", "F", "validating twice gives the same answer: the ValidateTool / WriteTool objects carry nothing from one call to the next (no method in the closure of execute stores through self), so a fix=true call cannot change what the next fix=false call on the same text returns", ["octave_mcp.mcp.validate:ValidateTool.execute", "octave_mcp.mcp.write:WriteTool.execute"], framesobs.ob_tool_stateless(("validate", "write"))))
     try:
         from props import C09_b
 
